@@ -5,7 +5,7 @@ CONSTANTS
   Kind = "contacts"
   Atoms <- AtomsListE
   Prefix <- PfxNone
-  MaxLen = 7
+  MaxLen = 29
   Cfgs <- CfgsCont
   Junk = 34
   EmitOn = TRUE
